@@ -22,7 +22,9 @@ RULE = (
 ASSUMPTIONS = [
     "a violation is reported only if a chi-square tail probability is below 1e-9 (or an output is not a spanning tree / a tree never appears with N/k >= 300): false-alarm probability per run < 1e-7",
     "block seeds are derived deterministically from VERIF_SEED (blake2b), so a run is a pure function of the code and the seed",
-    "uniformity is decided on grids whose spanning trees can be enumerated (2x2, 2x3, 3x2, 3x3); no claim is made for larger grids",
+    "the full uniform law is decided on grids whose spanning trees can be enumerated (2x2 .. 3x3, thorough: up to 3x4); on larger grids (4x4 .. 7x7, thorough up to 10x10) "
+    "every draw must be a spanning tree and the single-edge and edge-pair inclusion frequencies are compared with their exact values under the uniform law "
+    "(Kirchhoff / transfer-current theorem, computed by the harness from the Laplacian pseudo-inverse) - necessary conditions of uniformity, Bonferroni-corrected at 1e-9",
 ]
 
 ALPHA = 1e-9
@@ -124,6 +126,116 @@ def evaluate(r: int, c: int, cnt: Counter, tag: str):
     return {"N": N, "trees": k, "observed": len(cnt), "chi2": round(stat, 2), "p": p, "min_edge_p": worst}
 
 
+def sample_edge_block(r: int, c: int, seed_val: int, n: int):
+    """n seeded draws on a grid too large to enumerate its trees: returns (N, single-edge counts, pair counts); every draw must be a spanning tree"""
+    from maze_dataset.generation.generators import LatticeMazeGenerators
+
+    np.random.seed(seed_val % (2**32))
+    E = M.lattice_edges(r, c)
+    bi = [M.edge_bit(r, c, u, v) for u, v in E]
+    X = np.zeros((n, len(E)), dtype=np.int64)
+    shape = np.array([r, c])
+    for k in range(n):
+        m = LatticeMazeGenerators.gen_wilson(shape)
+        cl = np.asarray(m.connection_list)
+        if cl.shape != (2, r, c):
+            raise Violation("C19:shape", f"{cl.shape} for {r}x{c}")
+        flat = cl.reshape(-1)
+        if int(flat.sum()) != r * c - 1 or not M.is_spanning_tree(M.g_from_cl(cl)):
+            raise Violation("C19:not-a-spanning-tree", f"{r}x{c} seed={seed_val} draw {k}: output {''.join('1' if b else '0' for b in flat.tolist())} is not a spanning tree of the grid")
+        X[k] = flat[bi]
+    return n, X.sum(axis=0), X.T @ X
+
+
+_probs_cache: dict = {}
+
+
+def evaluate_edges(r: int, c: int, N: int, single, pair, tag: str):
+    if (r, c) not in _probs_cache:
+        _probs_cache[(r, c)] = M.edge_inclusion_probs(r, c)
+    E, p1, p2 = _probs_cache[(r, c)]
+    m = len(E)
+    ntests = m + len(p2)
+    worst = (1.0, None)
+    for x in range(m):
+        pe = p1[x]
+        if 1e-9 < pe < 1 - 1e-9 and N * min(pe, 1 - pe) >= 50:
+            z2 = (float(single[x]) - N * pe) ** 2 / (N * pe * (1 - pe))
+            pv = chi2_sf(z2, 1)
+            worst = min(worst, (pv, f"edge {E[x][0]}-{E[x][1]}"))
+            if pv < ALPHA / ntests:
+                raise Violation("C19:edge-marginal", f"{r}x{c} {tag}: edge {E[x][0]}-{E[x][1]} present in {int(single[x])}/{N} draws, exact marginal {pe:.5f}, p={pv:.3g}")
+    for (x, y), pe in p2.items():
+        if 1e-9 < pe < 1 - 1e-9 and N * min(pe, 1 - pe) >= 50:
+            obs = float(pair[x][y])
+            z2 = (obs - N * pe) ** 2 / (N * pe * (1 - pe))
+            pv = chi2_sf(z2, 1)
+            worst = min(worst, (pv, f"edges {E[x]} & {E[y]}"))
+            if pv < ALPHA / ntests:
+                raise Violation("C19:edge-pair-law", f"{r}x{c} {tag}: edges {E[x][0]}-{E[x][1]} and {E[y][0]}-{E[y][1]} both present in {int(obs)}/{N} draws, "
+                                f"exact joint probability {pe:.5f} (transfer-current theorem), p={pv:.3g}")
+    return {"N": N, "edges": m, "tests": ntests, "min_p": worst[0], "at": worst[1]}
+
+
+def check_edges(case: dict):
+    """replay entry for the larger-grid edge laws"""
+    r, c = case["r"], case["c"]
+    tot = None
+    for sd in case["seeds"]:
+        n, s1, s2 = sample_edge_block(r, c, sd, case["n"])
+        tot = (n, s1, s2) if tot is None else (tot[0] + n, tot[1] + s1, tot[2] + s2)
+    evaluate_edges(r, c, tot[0], tot[1], tot[2], "pooled")
+    return {"nt": True, "labels": [f"{r}x{c}"]}
+
+
+def _run_edges(total_by_shape: dict, blocks: int):
+    def run(seed_val: int):
+        stats = Stats()
+        fails: list = []
+        tasks, meta = [], []
+        for (r, c), N in total_by_shape.items():
+            n = max(1, N // blocks)
+            for b in range(blocks):
+                sd = core.derive_seed(seed_val, "edges", r, c, b) % (2**32)
+                tasks.append((_edge_task, (r, c, sd, n)))
+                meta.append((r, c, sd, n))
+        results = core.parallel(tasks)
+        by_shape: dict = {}
+        for (r, c, sd, n), res in zip(meta, results):
+            by_shape.setdefault((r, c), []).append((sd, n, res))
+        summaries = {}
+        for (r, c), lst in by_shape.items():
+            case = {"r": r, "c": c, "seeds": [sd for sd, _, _ in lst], "n": lst[0][1]}
+            bad = [res for _, _, res in lst if isinstance(res, tuple) and res and res[0] == "violation"]
+            N = 0
+            if bad:
+                fails.append(Failure("wilson-edge-laws", bad[0][1], bad[0][2], {"r": r, "c": c, "seeds": [bad[0][3]], "n": lst[0][1]}))
+            else:
+                N = sum(res[0] for _, _, res in lst)
+                s1 = sum(res[1] for _, _, res in lst)
+                s2 = sum(res[2] for _, _, res in lst)
+                try:
+                    summaries[f"{r}x{c}"] = evaluate_edges(r, c, N, s1, s2, "pooled")
+                except Violation as v:
+                    fails.append(Failure("wilson-edge-laws", v.sig, v.msg, case))
+            stats.evaluations += N
+            stats.nontrivial.add(core.digest(["edges", r, c]))
+            stats.labels[f"{r}x{c}"] += N
+            if len(stats.samples) < 3:
+                stats.samples.append({"r": r, "c": c, "seeds": case["seeds"][:3], "n_per_seed": case["n"]})
+        stats.extra["summaries"] = summaries
+        return stats, fails
+
+    return run
+
+
+def _edge_task(r, c, sd, n):
+    try:
+        return sample_edge_block(r, c, sd, n)
+    except Violation as v:
+        return ("violation", v.sig, v.msg, sd)
+
+
 def check(case: dict):
     """replay entry: re-sample everything the case describes, block by block and pooled"""
     r, c = case["r"], case["c"]
@@ -193,4 +305,7 @@ def subs(tier: str):
     q = tier == "quick"
     totals = ({(2, 2): 20000, (2, 3): 20000, (3, 2): 20000, (3, 3): 64000} if q else
               {(2, 2): 400000, (2, 3): 400000, (3, 2): 400000, (3, 3): 2000000, (2, 4): 400000, (4, 2): 400000, (3, 4): 1200000, (4, 3): 1200000})
-    return [Sub("wilson-uniform", check, "custom", run=_run(totals, 16 if q else 32))]
+    big = ({(4, 4): 32000, (5, 5): 16000, (2, 6): 16000, (6, 3): 16000, (1, 6): 1600, (7, 7): 3200} if q else
+           {(4, 4): 1600000, (5, 5): 800000, (2, 6): 800000, (6, 2): 800000, (6, 3): 800000, (3, 7): 800000, (1, 6): 16000, (7, 7): 400000, (10, 10): 100000, (4, 12): 100000})
+    return [Sub("wilson-uniform", check, "custom", run=_run(totals, 16 if q else 32)),
+            Sub("wilson-edge-laws", check_edges, "custom", run=_run_edges(big, 16 if q else 32))]
